@@ -104,3 +104,14 @@ Proof.
   - eexists. eexists. split; [vm_compute; reflexivity|reflexivity].
   - vm_compute. split; repeat constructor.
 Qed.
+
+(* Non-vacuity of the several-zones theorem: two zones with two endpoints each, rf = 3. *)
+Example C19_balanced_nonvacuous :
+  let eps := [(0, [5; 11]); (1, [3; 9]); (0, [7; 2]); (1, [8; 1])]%Z in
+  Forall (fun e => snd e <> []) eps /\ 3 <= length eps /\ (Z.of_nat 3 <= MaxInt64)%Z /\
+  (forall a, In a (az_set [] eps) -> 3 <= length (az_set [] eps) * length (zone_members eps a)).
+Proof.
+  split; [repeat constructor; discriminate|]. split; [vm_compute; repeat constructor|].
+  split; [vm_compute; discriminate|].
+  intros a Ha. vm_compute in Ha. destruct Ha as [<-|[<-|[]]]; vm_compute; repeat constructor.
+Qed.
